@@ -27,7 +27,7 @@ class ThisPredicate[T](Predicate[T]):
 
 def find_this_predicate(frame, predicate: Predicate) -> Predicate | None:
     for key, value in frame.f_locals.items():
-        if isinstance(value, Predicate) and value != predicate and key != "self":
+        if isinstance(value, Predicate) and value is not predicate and key != "self":
             if predicate_in_predicate_tree(value, predicate):
                 return value
     if next_frame := frame.f_back:
@@ -36,8 +36,6 @@ def find_this_predicate(frame, predicate: Predicate) -> Predicate | None:
 
 
 def predicate_in_predicate_tree(tree: Predicate, predicate: Predicate) -> bool:
-    from predicate.standard_predicates import PredicateFactory
-
     match tree:
         case AllPredicate(all_predicate):
             return predicate_in_predicate_tree(all_predicate, predicate)
@@ -47,9 +45,5 @@ def predicate_in_predicate_tree(tree: Predicate, predicate: Predicate) -> bool:
             return predicate_in_predicate_tree(comp_predicate, predicate)
         case OrPredicate(or_left, or_right):
             return predicate_in_predicate_tree(or_left, predicate) or predicate_in_predicate_tree(or_right, predicate)
-        case PredicateFactory() as factory:
-            return factory.predicate == predicate
-        case _ if tree == predicate:
-            return True
         case _:
-            return False
+            return tree is predicate
